@@ -27,7 +27,7 @@ RULE = (
     "other compiles; non-trivial = pattern with >= 1 field spec; distinct = distinct (pattern text, node fingerprint)"
 )
 ASSUMPTIONS = ["sequence patterns applied to str-valued fields and field names that are properties/methods are not generated (don't-care)"]
-MUST_SEE = ["regex_inner_whitespace", "rules_given_as_iter", "rules_given_as_gen", "regex_on_hash_equal_values", 
+MUST_SEE = ["empty_rule_selection", "regex_inner_whitespace", "rules_given_as_iter", "rules_given_as_gen", "regex_on_hash_equal_values", 
     "tail_vs_too_short", "capture_on_seq_with_tail", "two_any_captures", "var_node_other_origin", "second_alternative_subclass",
     "matches", "mismatches", "reasked", "multi_questions", "regex_middle_only", "tail_capture", "empty_seq_vs_nonempty", "reasked_after_rejected",
 ]
@@ -208,12 +208,15 @@ def run_shard(ctx):
                     refs = {f"r{i}": RP.ref_match(t, node, classes, ASTNode) for i, (_, t) in enumerate(chosen)}
                     orders = [None] + [list(p) for p in itertools.islice(itertools.permutations([d[0] for d in defs]), 6)]
                     names = [d[0] for d in defs]
+                    orders.append([])  # an explicit empty selection selects nothing
                     if k >= 2:
                         orders.append(list(reversed(names))[: k - 1])
                         orders.append([names[-1], names[0]])
                     for rules in orders:
                         ctx.evaluations += 1
                         ctx.count("multi_questions")
+                        if rules is not None and not rules:
+                            ctx.count("empty_rule_selection")
                         exp = None
                         for rn in rules if rules is not None else names:
                             if refs[rn][0]:
